@@ -151,6 +151,7 @@ type Machine struct {
 	protSeen  map[*Value]bool
 	curCoro   *coro
 	mainW     waiter
+	env       map[string]envRec
 	timers    []*Native
 	pinnedOn  bool
 	pinPos    int
